@@ -18,9 +18,17 @@
    Underneath: the SWAR byte search has no false negatives and, restricted to the five slot bytes,
    visits marked slots in increasing order; setByte/getByte/broadcast byte algebra; a key is stored
    at most once, in the chain its hash selects, under a meta byte equal to its hash byte.
-   Concurrent behaviour (lookups / updates / iteration during a resize) is checked by implementation
-   oracles only; the atomicity of Get/Compute that C02 assumes is not proved. *)
-From Otter Require Import Base HashMap HashMapFacts HashMapBytes HashMapRefine.
+   Concurrency (HashMapConc.v, proofs in HashMapConcProofs.v): the protocol between Compute, resize and
+   Get — root-bucket locks, the resize-in-progress and newer-table re-checks, the resizing flag, the copy
+   of each bucket under its lock in any order, publication before release — for any number of threads
+   and every schedule: C15_concurrent_table_is_the_map (nothing lost across resizes),
+   C15_concurrent_update_atomic / _applied_exactly_once (the atomicity of Compute that C02 assumes),
+   C15_concurrent_get_regular (a lock-free Get returns a binding current during the call).  There a
+   table version is a key->binding store (the layout is the sequential theorems' subject) and a bucket's
+   update, a bucket's copy and a Get's read of its key are one step each; the tbl engine replays the
+   real table's hook-to-hook schedules on this model.  Iteration during a resize and Clear are checked
+   by implementation oracles only. *)
+From Otter Require Import Base HashMap HashMapFacts HashMapBytes HashMapRefine HashMapConc HashMapConcProofs.
 From Coq Require Import Permutation.
 
 Theorem C15_seq_refines_map : forall hashf n ops,
@@ -70,6 +78,79 @@ Theorem C15_get_exact : forall hashf m key,
   end.
 Proof. exact get_spec. Qed.
 Print Assumptions C15_get_exact.
+
+
+(* ---- the concurrency protocol (HashMapConc.v): any number of Computes and Gets, any schedule, any
+   hash functions, tables growing and shrinking underneath (buckets copied in any order).  [spec] is the
+   abstract map: only the update step changes it, to [upd spec k (f (spec k))]; [hist] lists its
+   successive values. ---- *)
+
+(* nothing is lost across resizes: at every moment the table m.table points to holds exactly the
+   abstract map (a key inserted and not removed is there; a removed key is not) *)
+Theorem C15_concurrent_table_is_the_map : forall hidx n0 ops sched, (1 <= n0)%nat ->
+  let s := hrun hidx (hinit n0 ops) sched in forall k, stores s (hcur s) k = spec s k.
+Proof. exact conc_table_is_spec. Qed.
+Print Assumptions C15_concurrent_table_is_the_map.
+
+(* an update function is applied atomically: the writer about to apply it holds the lock of the key's
+   bucket in the CURRENT table and the binding it is about to be given is the abstract map's *)
+Theorem C15_concurrent_update_atomic : forall hidx n0 ops sched j t, (1 <= n0)%nat ->
+  let s := hrun hidx (hinit n0 ops) sched in
+  nth_error (hths s) j = Some t -> hpc_ t = W4 ->
+  hsnap t = hcur s /\ stores s (hsnap t) (hkey t) = spec s (hkey t) /\ lk s (hsnap t) (hbi t) = true.
+Proof. exact conc_update_sees_current. Qed.
+Print Assumptions C15_concurrent_update_atomic.
+
+(* ... and exactly once per call, whatever retries the resizes forced: a thread has applied its function
+   once when it is past its update step (or resizing after it), not at all before *)
+Theorem C15_concurrent_applied_exactly_once : forall hidx n0 ops sched j t, (1 <= n0)%nat ->
+  nth_error (hths (hrun hidx (hinit n0 ops) sched)) j = Some t -> happ t = b2n (applied t).
+Proof. exact conc_applied_exactly_once. Qed.
+Print Assumptions C15_concurrent_applied_exactly_once.
+
+(* a lock-free Get returns the binding its key had in the abstract map at some moment between its
+   table load and its return — never a binding older than the map current when it began *)
+Theorem C15_concurrent_get_regular : forall hidx n0 ops sched j t, (1 <= n0)%nat ->
+  let s := hrun hidx (hinit n0 ops) sched in
+  nth_error (hths s) j = Some t -> hpc_ t = GDone ->
+  (hst t - 1 <= hwit t < length (hist s))%nat /\ nth (hwit t) (hist s) dflt (hkey t) = hres t.
+Proof. exact conc_read_regular. Qed.
+Print Assumptions C15_concurrent_get_regular.
+
+Theorem C15_concurrent_get_quiescent : forall hidx n0 ops sched j t, (1 <= n0)%nat ->
+  let s := hrun hidx (hinit n0 ops) sched in
+  nth_error (hths s) j = Some t -> hpc_ t = GDone -> hst t = length (hist s) -> hres t = spec s (hkey t).
+Proof. exact conc_read_quiescent. Qed.
+Print Assumptions C15_concurrent_get_quiescent.
+
+(* bucket locks and the resizing flag are mutual exclusions *)
+Theorem C15_concurrent_bucket_mutex : forall hidx n0 ops sched g b, (1 <= n0)%nat ->
+  (hcnt (holder g b) (hths (hrun hidx (hinit n0 ops) sched)) <= 1)%nat.
+Proof. exact conc_bucket_mutex. Qed.
+Print Assumptions C15_concurrent_bucket_mutex.
+Theorem C15_concurrent_resize_mutex : forall hidx n0 ops sched, (1 <= n0)%nat ->
+  (hcnt resz (hths (hrun hidx (hinit n0 ops) sched)) <= 1)%nat.
+Proof. exact conc_resize_mutex. Qed.
+Print Assumptions C15_concurrent_resize_mutex.
+
+(* a schedule in which a writer must grow the table before its insert, another writer holds a bucket
+   the copy needs, a reader loaded the old table before the publication and reads it afterwards, and a
+   delete shrinks the table again: three table versions, every call finishes, every function applied
+   once, the reader's value is the one written during its call *)
+Example C15_concurrent_instance :
+  let hx := fun (g : nat) (k : Z) => (Z.to_nat k + g)%nat in
+  let ops := [(1, Some (fun _ : option Z => Some 10)); (2, Some (fun _ => Some 20)); (1, None);
+              (1, Some (fun v => match v with Some x => Some (x + 1) | None => None end)); (2, Some (fun _ => None))] in
+  let rep := fun (i n : nat) => repeat (i, 0%nat) n in
+  let sched := rep 0%nat 7%nat ++ [(2, 0)]%nat ++ rep 1%nat 4%nat ++ [(1, 1)]%nat ++ rep 3%nat 4%nat ++ [(1, 0); (1, 0)]%nat ++
+               rep 4%nat 3%nat ++ rep 3%nat 2%nat ++ [(1, 0); (1, 0); (1, 0)]%nat ++ [(2, 0)]%nat ++ rep 1%nat 8%nat ++
+               rep 4%nat 9%nat ++ [(4, 1); (4, 0); (4, 0); (4, 1); (4, 0); (4, 0); (4, 0)]%nat ++ rep 3%nat 3%nat in
+  let fin := hrun hx (hinit 1 ops) sched in
+  map hpc_ (hths fin) = [HDone; HDone; GDone; HDone; HDone] /\ lens fin = [1; 2; 1]%nat /\ hcur fin = 2%nat /\
+  map (fun k => stores fin (hcur fin) k) [1; 2; 3] = [Some 11; None; None] /\
+  map hres (hths fin) = [None; None; Some 11; None; None] /\ map happ (hths fin) = [1; 1; 0; 1; 1]%nat /\
+  map hst (hths fin) = [0; 0; 2; 0; 0]%nat /\ map hwit (hths fin) = [0; 0; 2; 0; 0]%nat.
+Proof. vm_compute. repeat split. Qed.
 
 
 
